@@ -104,7 +104,15 @@ ConvStim == UNION { UNION { { << [ev |-> "reset", comp |-> "sinc_conv",
                                            src |-> [j \in 1..(2 * d + 2) |-> Val(j, fc[2])]]] >>
                                \o [i \in 1..(3 * d + 4) |-> [ev |-> "next", a |-> [x |-> 0]]]
                               : ct \in {"scale", "sample", "hz"} } : fc \in Fmts } : d \in 1..MaxDepth }
-Stimuli == DirectStim \cup ConvStim
+\* round 4: the last frames read by consuming the converter through the provided Signal::take (`tail{m}`),
+\* from the start, after the priming phase, and for the very last frame
+TailStim == UNION { UNION { { << [ev |-> "reset", comp |-> "sinc_conv",
+                                  cfg |-> [depth |-> d, fmt |-> fc[1], ch |-> fc[2], ctor |-> (<< "scale", "sample", "hz" >>)[(p % 3) + 1],
+                                           src |-> [j \in 1..(2 * d + 2) |-> Val(j, fc[2])]]] >>
+                               \o [i \in 1..p |-> [ev |-> "next", a |-> [x |-> 0]]]
+                               \o << [ev |-> "tail", a |-> [m |-> 3 * d + 4 - p]] >>
+                              : p \in {0, d, d + 1, 3 * d + 3} } : fc \in Fmts } : d \in 1..MaxDepth }
+Stimuli == DirectStim \cup ConvStim \cup TailStim
 WriteStimuli ==
   IF "STIM_OUT" \in DOMAIN IOEnv
     THEN /\ ndJsonSerialize(IOEnv.STIM_OUT, SetToSeq(Stimuli))
